@@ -137,6 +137,11 @@ def disagreement_is_failing_input(pid, broken):
         # implementation of the documented layout on a concrete byte string / message is the failing input
         if pid == "C08" and kind == "correspondence" and re.search(r"op:\s+(DECODE|ENCODE) ", msg):
             return True
+        # C15: the model's listener calls are proved equal to the specification (every subscription
+        # whose prefix matches, once, key stripped): the implementation's call log differing from them
+        # on a concrete history is the failing input
+        if pid == "C15" and kind == "correspondence" and re.search(r"op:\s+CALLS ", msg):
+            return True
     return False
 
 
